@@ -16,7 +16,7 @@ b = src[i+1:j]
 b = re.sub(r'//[^\n]*', '', b)
 b = b.replace('let mut cx = PhaseGuard::enter(self, None);', '')
 b = re.sub(r'cx\.log_progress\([^)]*\);', '', b)
-b = re.sub(r'cx\.switch\((Phase::\w+)\);', r'self.phase = \1;', b)
+b = re.sub(r'cx\.switch\((Phase::\w+)\);', r'self.switch(\1);', b)
 b = b.replace('cx.mark_one(root)', 'self.mark_one()')
 b = re.sub(r'\bcx\.', 'self.', b)
 b = re.sub(r'self\.(all|sweep_prev)\.get\(\)', r'self.\1', b)
